@@ -55,4 +55,12 @@ def collectCmd (args : List Sexp) : Option String := do
     pure (" ".intercalate ((PMV.HoistCollect.collect m).map encConst))
   | _ => none
 
+/-- `hoist.groups <module>` → the hoisted bindings in creation order, `<value>:<number of references>` -/
+def groupsCmd (args : List Sexp) : Option String := do
+  match args with
+  | [m] =>
+    let m ← AstSexp.module? m
+    pure (" ".intercalate ((PMV.HoistCollect.bindingsOf m).map fun e => encConst e.1 ++ ":" ++ toString e.2))
+  | _ => none
+
 end PMV.Driver.HoistCollect
